@@ -5,7 +5,10 @@ sync.Once, caller cancellation, store failures), model-checked by TLC for
 safety and - under fairness - liveness (Next eventually false for a live
 consumer while another query's consumer is stalled for ever). cmd/query
 drives the real engine through scenarios taken from the specification's
-action space; QueryMonitor.tla (TLC) judges every observation."""
+action space; QueryMonitor.tla (TLC) judges every observation, and the
+steps the engine took in those scenarios (recorded at its verifQ points) are
+checked to be behaviours of QueryPipeline.tla by QueryPipelineTrace.tla
+(lib/qtrace.py)."""
 import json
 import os
 import re
@@ -16,8 +19,10 @@ from vcommon import Infra, drive, build_harness, copy_specs, monitor_report, run
 
 PROPS = ["C20", "C21", "C22"]
 DESIGN = {
-    "quick": [("QueryPipeline_b.cfg", 16), ("QueryPipeline_c.cfg", 16), ("QueryPipeline_d.cfg", 16), ("QueryPipeline_live.cfg", 16)],
-    "thorough": [("QueryPipeline_b.cfg", 16), ("QueryPipeline_c.cfg", 16), ("QueryPipeline_d.cfg", 16), ("QueryPipeline_live.cfg", 16),
+    # live_nb: the liveness configuration without a filter pass (HasBloom = FALSE), a fifth of the states of `live`
+    "quick": [("QueryPipeline_b.cfg", 16), ("QueryPipeline_c.cfg", 16), ("QueryPipeline_d.cfg", 16), ("QueryPipeline_live_nb.cfg", 16)],
+    "thorough": [("QueryPipeline_b.cfg", 16), ("QueryPipeline_c.cfg", 16), ("QueryPipeline_d.cfg", 16), ("QueryPipeline_live_nb.cfg", 16),
+                 ("QueryPipeline_live.cfg", 16),
                  ("QueryPipeline_e.cfg", 16), ("QueryPipeline_a.cfg", 16)],
 }
 # the repaired defect (Close ignoring a preceding caller cancellation) as a switch of the specification:
@@ -95,6 +100,11 @@ def compute(tier, seed):
                 prop = v["p"][:3]
                 viol.append({"pred": v["p"], "prop": prop, "title": json.dumps(o["sc"])[:300], "sig": sig_of(v["p"], o),
                              "reproduced": (v["id"], v["p"]) in again, "observation": o})
+        # structural conformance: the recorded steps must be a behaviour of QueryPipeline.tla (drift is reported, not judged)
+        import qtrace
+        conf = qtrace.validate(work, os.path.join(outdir, "qtrace.ndjson"), TRACE_SAMPLE[tier], seed)
+        if conf["errors"] and not conf["accepted"]:
+            raise Infra("read-path trace validation could not run: %s" % conf["errors"][:2])
         ids = sorted(obs)
         samples = [obs[i]["sc"] for i in ids[::max(1, len(ids) // 5)]][:5]
         kinds = {}
@@ -103,13 +113,15 @@ def compute(tier, seed):
             k = "multi" if sc["kind"] == "multi" else ("fault+pause" if sc["fault"] and sc["pause"] else "fault" if sc["fault"] else
                                                        "pause" if sc["pause"] else "corrupt" if sc["corrupt"] else "baseline")
             kinds[k] = kinds.get(k, 0) + 1
-        return {"design": design, "impl": {"obs": len(obs), "kinds": kinds, "stats": stats, "infra": infra, "harness_secs": round(hsecs, 1)},
+        return {"design": design, "impl": {"obs": len(obs), "kinds": kinds, "stats": stats, "infra": infra, "harness_secs": round(hsecs, 1),
+                                           "conformance": conf},
                 "violations": viol, "samples": samples, "wall_s": round(time.time() - t0, 1)}
     finally:
         shutil.rmtree(work, ignore_errors=True)
 
 
 LEVEL = {"C20": "model_checking", "C21": "model_checking", "C22": "model_checking"}
+TRACE_SAMPLE = {"quick": 48, "thorough": 2000}
 
 
 def evidence(pid, tier, res):
@@ -120,9 +132,21 @@ def evidence(pid, tier, res):
     cov = {"states": des["states"], "transitions": des["transitions"], "traces_validated_against_impl": n,
            "samples": res["samples"], "design_runs": des["runs"], "scenario_kinds": impl["kinds"], "monitor_stats": impl["stats"],
            "summary": "%d scenarios of the real read path judged, %d design states" % (n, des["states"])}
+    conf = impl.get("conformance")
+    if conf:
+        cov.update({"structurally_validated": conf["validated"], "structurally_accepted": conf["accepted"],
+                    "structurally_accepted_steps": conf["steps_accepted"], "trace_validation_timeouts": conf["timeouts"],
+                    "trace_validation_skipped": conf["skipped"], "trace_validation_errors": conf["errors"][:5],
+                    "trace_actions_exercised": conf["actions_exercised"], "trace_validation_sample": conf["sample_trace"],
+                    "drift_traces": [{"trace": r["scenario"], "program": r["name"], "explained": (r["reached"] or [None, None])[0],
+                                      "events": (r["reached"] or [None, None])[1], "first_unexplained": r["stuck_at"][:6]}
+                                     for r in conf["rejected"][:10]]})
     assumptions = ["fail-stop fault model for injected store failures; corruption is a flipped byte in a block's stored row data",
                    "scheduling control is at store-call boundaries (iterator entry, yields, opens, reads) plus consumer/closer/caller actions at quiescent points",
                    "goroutine quiescence is read from runtime.Stack states; leftover goroutines are looked for by frame name after a settle of at most 3 s",
                    "C20: a caller cancellation that lands while Close is in progress is not judged either way",
-                   "C22: 'in-progress reads' are Read calls on handles returned by DataStore.OpenFile"]
+                   "C22: 'in-progress reads' are Read calls on handles returned by DataStore.OpenFile",
+                   "structural acceptance (QueryPipelineTrace.tla): hook stamps bound each step's effect from above (and the previous hook of "
+                   "the goroutine from below); TLC searches for an interleaving consistent with those bounds; the rows of a batch after the "
+                   "first are folded into one step; a rejected or timed-out trace is reported as drift, never as a verdict"]
     return LEVEL[pid], cov, assumptions
